@@ -1,2 +1,7 @@
 from ._meta import M
 META = M["C04"]
+
+
+def lemmas(E, REG):
+    from . import _title_lemma
+    return _title_lemma.lemmas(E, "C04")
